@@ -59,7 +59,61 @@ def entries_for(prop, ix):
                 ents.append({"entry": q, "qual": q, "self": "F" if q.endswith("Path.eval") else "I", "args": a, "kw": {},
                              "what": q})
         return ents, ALLOW_READS
+    if prop == "C12":
+        # add-only: from every parser entry point, no removing/overwriting operation may reach the sink (INPUT region)
+        ents = []
+        for q, argi in (("NTParser.parse", 1), ("NQuadsParser.parse", 1), ("TurtleParser.parse", 1), ("N3Parser.parse", 1),
+                        ("TrigParser.parse", 1), ("RDFXMLParser.parse", 1), ("TriXParser.parse", 1),
+                        ("JsonLDParser.parse", 1), ("HextuplesParser.parse", 1), ("Graph.parse", -1),
+                        ("ConjunctiveGraph.parse", -1), ("Dataset.parse", -1)):
+            if q not in ix.funcs:
+                continue
+            n = len(ix.funcs[q][2].args.args) - 1
+            a = ["N"] * n
+            if argi >= 0 and argi < n:
+                a[argi] = "I"
+            ents.append({"entry": q, "qual": q, "self": "I" if argi < 0 else "F", "args": a, "kw": {},
+                         "what": q + " (sink graph/dataset = INPUT)",
+                         "mutators": {"remove", "set", "__isub__", "remove_graph", "remove_context", "update", "rollback",
+                                      "destroy"}})
+        allow = {
+            "AuditableStore.add:remove:self.reverseOps":
+                "C18 contract of AuditableStore.add (proved): reverseOps is the undo LOG (a Python list), list.remove on it "
+                "cancels a pending entry; the effect on the wrapped store is add only",
+            "NQuadsParser.parse:remove_graph:ds": {
+                "guard": "len(ds_default) == 0",
+                "why": "guarded by len(ds_default) == 0 (checked syntactically on every run): by the Store.remove_graph "
+                       "contract only an EMPTY graph is forgotten, no quad is removed"},
+            "HextuplesParser.parse:remove_graph:ds": {
+                "guard": "len(ds_default) == 0",
+                "why": "guarded by len(ds_default) == 0 (checked syntactically on every run): only an empty graph is forgotten"},
+        }
+        return ents, allow
+    if prop == "C15":
+        ents = [{"entry": "evaluate.evalQuery[tree]", "qual": "rdflib/plugins/sparql/evaluate.py:evalQuery", "self": None,
+                 "args": ["N", "I", "N", "N"], "kw": {}, "mode": "tree",
+                 "what": "evalQuery(graph, query, ...): the prepared Query/algebra tree is the INPUT region"},
+                {"entry": "evaluate.evalUpdate-free:evalPart[tree]", "qual": "rdflib/plugins/sparql/evaluate.py:evalPart",
+                 "self": None, "args": ["N", "I"], "kw": {}, "mode": "tree", "what": "evalPart(ctx, part)"}]
+        allow = {"Expr.eval:setattr:ctx:self": "PyVC contract of Expr.eval (contracts.c15_prepared): self.ctx is None again "
+                                               "on every exit, normal or exceptional; nothing else of the node changes"}
+        return ents, allow
     raise SystemExit("no frame entries for " + prop)
+
+
+def guard_ok(ix, site, why):
+    """an allowed site may require a syntactic guard: the call must sit inside `if <guard>:` in the real source"""
+    if isinstance(why, str):
+        return True
+    import ast
+    rel, line = site["where"].rsplit(":", 1)
+    tree = ast.parse(open(os.path.join(frame.REPO, rel)).read())
+    for node in ast.walk(tree):
+        if isinstance(node, ast.If) and ast.unparse(node.test) == why["guard"]:
+            for sub in node.body:
+                if sub.lineno <= int(line) <= getattr(sub, "end_lineno", sub.lineno):
+                    return True
+    return False
 
 
 def main():
@@ -74,7 +128,7 @@ def main():
            "entries": [], "allowed_sites": {}}
     seen = set()
     for ent in ents:
-        an = frame.Analysis(ix)
+        an = frame.Analysis(ix, mode=ent.get("mode", "graph"), mutators=ent.get("mutators"))
         an.stack.append(("<entry>", "<entry>"))
         cls = ent["qual"].split(".")[0] if ":" not in ent["qual"] else None
         for fld, r in (ent.get("fields") or {}).items():
@@ -86,8 +140,11 @@ def main():
         an.analyse(ent["qual"], ent["self"], list(ent["args"]), dict(ent["kw"]))
         nfail = 0
         for s in an.sites:
-            if s["key"] in allow:
-                res["allowed_sites"].setdefault(s["key"], allow[s["key"]])
+            if a.prop == "C12" and s["mutator"].startswith("setattr:"):
+                continue          # attribute assignment on a wrapper object is not a removing operation (C12 forbidden set)
+            if s["key"] in allow and guard_ok(ix, s, allow[s["key"]]):
+                why = allow[s["key"]]
+                res["allowed_sites"].setdefault(s["key"], why if isinstance(why, str) else why["why"])
                 an.ok_sites += 1
                 continue
             nfail += 1
